@@ -4,6 +4,7 @@ mod common;
 mod names;
 mod suite01;
 mod suite05;
+mod suite06;
 mod suite07;
 
 use common::Rng;
@@ -16,6 +17,7 @@ fn exec(suite: u32, input: &[u64]) -> Vec<u64> {
         20 | 30 => suite01::exec20(input),
         40 => suite01::exec40(input),
         50 => suite05::exec(input),
+        60 => suite06::exec(input),
         70 => suite07::exec(input),
         _ => vec![998],
     });
@@ -73,6 +75,7 @@ fn main() {
                 20 | 30 => suite01::gen20(tier, &mut rng, &mut emit),
                 40 => suite01::gen40(tier, &mut rng, &mut emit),
                 50 => suite05::gen(tier, &mut rng, &mut emit),
+                60 => suite06::gen(tier, &mut rng, &mut emit),
                 70 => suite07::gen(tier, &mut rng, &mut emit),
                 _ => {}
             }
